@@ -1736,12 +1736,59 @@ func c11R7(c *Ctx) {
 		})
 	}
 	c.minCount(rule, "panicking SDK scope operations on the file's input scope", n, 3)
+	// the SDK's schema comparison dereferences the bounds of both sides after testing only one of them: a schema with
+	// only a lower bound against one with only an upper bound is a nil dereference (found defect D23). One side is the
+	// type of an expression over the file's input, so the preparation's calls run under a recover as well.
+	nc := 0
+	for _, fn := range c.sortedFns(scope) {
+		if pkgPathOf(fn) != pkgWorkflow || funcSimpleName(fn) == "ValidateCompatibility" {
+			continue // implementations of the interface are entered by the SDK's own recursion
+		}
+		eachInstr(fn, func(r instrRef) {
+			cc := callCommon(r.I)
+			if cc == nil {
+				return
+			}
+			name := ""
+			recvT := ""
+			if cc.IsInvoke() {
+				name, recvT = cc.Method.Name(), cc.Value.Type().String()
+			} else if f := cc.StaticCallee(); f != nil && f.Signature.Recv() != nil {
+				name, recvT = f.Name(), f.Signature.Recv().Type().String()
+			}
+			if name != "ValidateCompatibility" || !strings.Contains(recvT, "pluginsdk/schema.") {
+				return
+			}
+			nc++
+			key := fmt.Sprintf("sdk-panic@%s#ValidateCompatibility", c.fnName(fn))
+			c.verdict(protected(fn, 0, map[*ssa.Function]bool{}), rule, key, c.instrPos(r.I), "the SDK's schema comparison runs under a deferred recover that returns the panic as an error",
+				"ValidateCompatibility of the SDK is called on the type of a workflow expression without a recover: it dereferences missing bounds (a string or integer with only `max` against a stage input with only `min`), and preparation panics instead of returning an error")
+		})
+	}
+	c.minCount(rule, "schema comparisons in the preparation", nc, 1)
 	// the other scope that comes from the file: a declared output schema. It is only USED when an output is produced
 	// (handleOutput -> Unserialize -> RootObject inside the SDK), so it has to be checked during preparation: a value taken
 	// from Workflow.OutputSchema is handed to a recovering function that links it and looks its root up
 	prep := c.Fn("(*workflow.executor).Prepare")
 	if prep != nil {
-		linked := false
+		linked, validated := false, false
+		var reachesMethod func(fn *ssa.Function, name string, d int) bool
+		reachesMethod = func(fn *ssa.Function, name string, d int) bool {
+			found := false
+			eachInstr(fn, func(r2 instrRef) {
+				cc := callCommon(r2.I)
+				if cc == nil {
+					return
+				}
+				if cc.IsInvoke() && cc.Method.Name() == name {
+					found = true
+				}
+				if f := cc.StaticCallee(); f != nil && d > 0 && isRepoFn(f) && len(f.Blocks) > 0 && reachesMethod(f, name, d-1) {
+					found = true
+				}
+			})
+			return found
+		}
 		c.eachInstrLogical(prep, func(r instrRef) {
 			call, ok := r.I.(*ssa.Call)
 			if !ok {
@@ -1751,13 +1798,9 @@ func c11R7(c *Ctx) {
 			if callee == nil || !isRepoFn(callee) || !recoverGuarded(callee) {
 				return
 			}
-			looksUpRoot := false
-			eachInstr(callee, func(r2 instrRef) {
-				if cc := callCommon(r2.I); cc != nil && cc.IsInvoke() && cc.Method.Name() == "RootObject" {
-					looksUpRoot = true
-				}
-			})
-			if !looksUpRoot {
+			looksUpRoot := reachesMethod(callee, "RootObject", 0)
+			validates := reachesMethod(callee, "ValidateReferences", 2)
+			if !looksUpRoot && !validates {
 				return
 			}
 			var fromDeclared func(v ssa.Value, d int) bool
@@ -1780,10 +1823,17 @@ func c11R7(c *Ctx) {
 			}
 			for _, a := range call.Call.Args {
 				if fromDeclared(a, 0) {
-					linked = true
+					if looksUpRoot {
+						linked = true
+					}
+					if validates {
+						validated = true
+					}
 				}
 			}
 		})
+		c.verdict(validated, rule, "declared-output-schema-references-validated", c.pos(prep.Pos()), "the references of a declared output schema's scope are validated under a recover during preparation",
+			"the references of a declared `outputSchema` are never validated during preparation: a reference into a namespace (`namespace: …`) stays unlinked, the workflow is accepted, and the run panics inside the SDK (`ref type not linked to its object`) when that output is produced")
 		c.verdict(linked, rule, "declared-output-schema-checked", c.pos(prep.Pos()), "a declared output schema's scope is linked and its root looked up under a recover during preparation",
 			"the scope of a declared `outputSchema` is never checked during preparation: a scope whose root object is missing is accepted, and the run panics (RootObject inside the SDK) when that output is produced")
 	}
